@@ -587,11 +587,23 @@ func randStructIn(r *Rng, depth int, c typeGenCfg, used map[string]bool) *tyNode
 		if r.P(1, 12) {
 			tag += ",ignore"
 		}
-		if c.Inline && (ft.Kind == "struct" || ft.Kind == "map") && r.P(1, 4) {
+		ptrStruct := ft.Kind == "ptr" && ft.Elem.Kind == "struct"
+		forced := false
+		if c.Inline && depth < 2 && r.P(1, 14) {
+			// an inline pointer to a struct (random types reach it too rarely)
+			ft = &tyNode{Kind: "ptr", Elem: &tyNode{Kind: "struct"}}
+			f.T = ft
+			ptrStruct, forced = true, true
+		}
+		if c.Inline && (ft.Kind == "struct" || ft.Kind == "map" || ptrStruct) && (forced || r.P(1, 4)) {
 			tag = ",inline"
 			used[eff] = false
 			if ft.Kind == "struct" { // regenerate it inside the parent's namespace
 				ft = randStructIn(r, depth+1, c, used)
+				f.T = ft
+			}
+			if ptrStruct {
+				ft = &tyNode{Kind: "ptr", Elem: randStructIn(r, depth+1, c, used)}
 				f.T = ft
 			}
 		}
